@@ -50,11 +50,20 @@ fn main() {
                 let open: Vec<acts::Message> = sess.open_irqs(None).into_iter().filter(|m| !done.contains(&m.tid)).collect();
                 let Some(m) = open.first() else { break };
                 done.insert(m.tid.clone());
-                let r = sess.act(args.get(4).map(|s| s.as_str()).unwrap_or("complete"), &m.pid, &m.tid, &acts::Vars::new());
+                let opts: serde_json::Value = serde_json::from_str(&std::env::var("TRY_OPTS").unwrap_or("{}".into())).expect("TRY_OPTS json");
+                let r = sess.act(args.get(4).map(|s| s.as_str()).unwrap_or("complete"), &m.pid, &m.tid, &mc::checks::common::vars_of(&opts));
                 println!("client {} {} => {r:?}", m.tid, m.key);
             }
-            for l in mc::amode::trace_log(&sess.w.trace_snapshot()) {
-                println!("{l}");
+            if std::env::var("TRY_DATA").is_ok() {
+                for t in sess.w.trace_snapshot() {
+                    if let mc::world::Tr::Emit { channel, msg } = t {
+                        println!("emit {channel} {} {} {:?} key={} inputs={} outputs={}", msg.tid, msg.r#type, msg.state, msg.key, msg.inputs, msg.outputs);
+                    }
+                }
+            } else {
+                for l in mc::amode::trace_log(&sess.w.trace_snapshot()) {
+                    println!("{l}");
+                }
             }
             if let Some(d) = sess.dump("p1") {
                 for t in &d.tasks {
